@@ -108,6 +108,15 @@ pub open spec fn write_post<W: AsyncWrite>(writer: W, resp: Response, close: boo
 }
 
 
+// C08: whatever fails, what was written is a prefix of the one serialisation (nothing at all when refused up front),
+// and a known-length body that comes up short is never reported as sent
+#[verifier::prophetic]
+pub open spec fn wr_c08_clause<W: AsyncWrite>(writer: W, resp: Response, close: bool, r: Result<(), HttpError>) -> bool {
+    &&& r is Err ==> writer.cur().is_prefix_of(writer.end()) && writer.end().is_prefix_of(writer.cur() + ser(resp, close))
+    &&& (wr_guard(resp) is Some) ==> r is Err && writer.end() == writer.cur()
+    &&& (r is Ok && blen(resp.body) is Some) ==> body_wire(resp.body).len() == blen(resp.body)->Some_0
+}
+
 // ---- readable form of the head and structural theorems (C06 / C20)
 // the automatic fields: content-type iff a type is set, connection: close iff closing, then exactly one of
 // content-length (known body length) and transfer-encoding: chunked (unknown length)
